@@ -390,6 +390,10 @@ def check_callee_frame(st, c, targets, line):
 
 
 def call_contract(st, c, args, kwargs, n=None, closure_env=None):
+    try:
+        st.ex.used.add(c.key)
+    except AttributeError:
+        pass
     if c.model is not None:
         r = c.model(st, args, kwargs)
         if not st.spec:
